@@ -119,7 +119,7 @@ def main(tier, replay=None):
                       INV, PROPS, required=("InitPick", "LoopPick", "Complete", "Finish", "Kill", "Restart"), timeout=3400)
     # (i) straight run == split run, byte for byte, one worker, many seeds, every split point
     rnd = random.Random(chk.seed + 11)
-    seeds = [0, 1, 2, 7, 12345, 2 ** 31 + 5] + ([rnd.randrange(10 ** 6) for _ in range(6)] if not q else [])
+    seeds = [0, 1, 2, 7, 12345, 2 ** 31 + 5, 2 ** 32 + 11, 2 ** 63 - 25] + ([rnd.randrange(10 ** 6) for _ in range(6)] if not q else [])
     total = 12 if q else 30
     jobs = []
     for si, seed in enumerate(seeds):
@@ -150,7 +150,7 @@ def main(tier, replay=None):
     # the same comparison with the real TurtleMD engine (Langevin dynamics with the job's engine stream), the unmodified scheduler() and
     # a real process pool
     tjobs = []
-    for seed in ([0, 3, 12345] if q else [0, 1, 3, 12345, 99, 2 ** 31 + 5]):
+    for seed in ([0, 3, 12345, 2 ** 32 + 11] if q else [0, 1, 3, 12345, 99, 2 ** 31 + 5, 2 ** 32 + 11]):
         for mi in (0, 1):
             tot = 10 if q else 16
             k = rnd.randrange(1, tot)
